@@ -374,6 +374,12 @@ impl DogStatsDBuilder {
 
             let forwarder = forwarder::sync::Forwarder::new(forwarder_config, state);
 
+            #[cfg(metrics_verif)]
+            metrics::__verif::thread::spawn_detached("metrics-exporter-dogstatsd-forwarder", move || {
+                forwarder.run()
+            })
+            .map_err(|_| BuildError::Backend)?;
+            #[cfg(not(metrics_verif))]
             std::thread::Builder::new()
                 .name("metrics-exporter-dogstatsd-forwarder".to_string())
                 .spawn(move || forwarder.run())
